@@ -280,3 +280,92 @@ func TestVerifC05Decode(t *testing.T) {
 		}
 	})
 }
+
+// c05TinyPoint draws a curve point one of whose affine coordinates has a second representative
+// below the element width (y resp. x < 2^(8*size) - p: 19 for edwards25519, 2^224+1 for edwards448),
+// or a general point. Encoders end in a final reduction of y and take the sign from the reduced x.
+func c05TinyPoint(t *rapid.T, c *edwards.Curve, size int) (x, y *big.Int, cls string) {
+	width := new(big.Int).Lsh(big.NewInt(1), uint(8*size))
+	if size == 32 {
+		width.Rsh(width, 1)
+	}
+	bound := new(big.Int).Sub(width, c.P)
+	for try := 0; try < 64; try++ {
+		b := make([]byte, (bound.BitLen()+7)/8)
+		vlib.FillRandom(t, b, fmt.Sprintf("tv%d", try))
+		v := vlib.FromLE(b)
+		v.Mod(v, bound)
+		switch rapid.IntRange(0, 2).Draw(t, fmt.Sprintf("tk%d", try)) {
+		case 0:
+			v = big.NewInt(int64(rapid.IntRange(0, 18).Draw(t, fmt.Sprintf("ts%d", try))))
+		case 1:
+			v.Rsh(v, uint(rapid.IntRange(0, bound.BitLen()).Draw(t, fmt.Sprintf("tr%d", try))))
+		}
+		sign := rapid.Bool().Draw(t, fmt.Sprintf("tg%d", try))
+		if rapid.Bool().Draw(t, fmt.Sprintf("tc%d", try)) {
+			// tiny y
+			p, _ := c.DecodeStrict(c.EncodeRaw(v, map[bool]uint{false: 0, true: 1}[sign]))
+			if p == nil {
+				continue
+			}
+			x, y = c.Affine(p)
+			return x, y, "tiny-y"
+		}
+		yy, ok := c.RecoverY(v, sign)
+		if !ok {
+			continue
+		}
+		return v, yy, "tiny-x"
+	}
+	k := big.NewInt(int64(rapid.IntRange(1, 1<<30).Draw(t, "gk")))
+	x, y = c.Affine(c.ScalarMult(k, c.Base()))
+	return x, y, "general"
+}
+
+// c05Proj returns X = x*Z, Y = y*Z in a drawn representative (canonical or +p where it fits).
+func c05Proj(t *rapid.T, c *edwards.Curve, size int, x, y *big.Int) (X, Y, Z *big.Int) {
+	width := new(big.Int).Lsh(big.NewInt(1), uint(8*size))
+	Z, _ = vlib.FieldOperand(t, c.P, 8*size, 1, false, "Z")
+	if new(big.Int).Mod(Z, c.P).Sign() == 0 || rapid.IntRange(0, 3).Draw(t, "z1") == 0 {
+		Z = big.NewInt(1)
+	}
+	rep := func(v *big.Int, l string) *big.Int {
+		r := new(big.Int).Mul(v, Z)
+		r.Mod(r, c.P)
+		if rp := new(big.Int).Add(r, c.P); rp.Cmp(width) < 0 && rapid.Bool().Draw(t, l) {
+			return rp
+		}
+		return r
+	}
+	return rep(x, "xrep"), rep(y, "yrep"), Z
+}
+
+// TestVerifC05Encode: Point.ToBytes / MarshalBinary on projective inputs whose affine coordinates
+// have two representatives below 2^448 (and general points), against the reference encoder.
+func TestVerifC05Encode(t *testing.T) {
+	defer vlib.Done()
+	const sub = "whitebox/goldilocks.ToBytes"
+	c := edwards.Ed448Curve
+	vlib.Check(t, vlib.N(1500, 15000), func(t *rapid.T) {
+		x, y, cls := c05TinyPoint(t, c, 56)
+		X, Y, Z := c05Proj(t, c, 56, x, y)
+		P := &Point{x: *c05Elt(X), y: *c05Elt(Y), z: *c05Elt(Z)}
+		P.ta, P.tb = P.x, P.y
+		vlib.Eval(sub)
+		got := make([]byte, 57)
+		for i := range got {
+			got[i] = 0xa5
+		}
+		err := P.ToBytes(got)
+		want := c.Encode(c.FromAffine(x, y))
+		if err != nil || !bytes.Equal(got, want) {
+			if vlib.Report(t, "C05/whitebox/goldilocks.ToBytes/wrong-encoding", fmt.Sprintf("x=%x y=%x (%s) X=%x Y=%x Z=%x got=%x want=%x err=%v", x, y, cls, X, Y, Z, got, want, err)) {
+				return
+			}
+		}
+		vlib.Class(sub, "point="+cls)
+		if cls != "general" {
+			vlib.NonTrivial(sub, "", X.Bytes(), Y.Bytes(), Z.Bytes())
+		}
+	})
+}
